@@ -27,6 +27,8 @@ FUNC_SNIPPETS = {
     "nested": ("def f_nested{n}(a):\n    def inner():\n        return a.x\n    return a.y\n", ("error", 5)),
     "method": ("def f_method{n}(a):\n    return a.method{n}()\n", ("info", 0)),
     "clean": ("def f_clean{n}(a):\n    return a.attr{n}\n", None),
+    # an error raised while the call target is looked up (get_call_target): a call on the result of a call
+    "call_on_call": ("def f_coc{n}(a):\n    return f_coc{n}(a)(a)\n", ("error", 5)),
 }
 FATAL_SNIPPET = "def f_fatal(a):\n    global g_fatal\n    return a.z\n"
 
@@ -78,6 +80,11 @@ def gen_program(rng: random.Random, *, allow_fatal=True) -> dict:
         plan["simplify"].append("too_many")
     tgt += "    return r\n"
     tgt += "def callee1(q):\n    return q.callee_attr\n"
+    if rng.random() < 0.5:
+        # one defective call reached from several functions: simplification raises the same diagnostic, for the same
+        # call, once per function that reaches it
+        tgt += "def shared_step(q):\n    return callee1(q, q)\n\ndef caller2(x):\n    return shared_step(x)\n\ndef caller3(x):\n    return shared_step(x.inner)\n"
+        plan["simplify"] += ["too_many (shared)"] * 3
     fatal = None
     if allow_fatal and rng.random() < 0.2:
         fatal = rng.choice(["target", "import"])
